@@ -113,12 +113,14 @@ def build(topo: dict) -> World:
     bws = list(topo["bw"])
 
     def host(name, ip, gw=None):
+        up_d, down_d = topo.get("dur", {}).get(name, [0, 0])   # boot / shutdown countdowns (ticks) of this host
         cfg = {"type": "computer", "hostname": name, "ip_address": ip, "subnet_mask": "255.255.255.0", "start_up_duration": 0,
                "shut_down_duration": 0}
         if gw:
             cfg["default_gateway"] = gw
         c = Computer.from_config(config=cfg)
         c.power_on()
+        c.config.start_up_duration, c.config.shut_down_duration = up_d, down_d     # built ON at once; later transitions take ticks
         net.add_node(c)
         w.nodes[name] = c
         w.hosts.append(name)
@@ -364,11 +366,48 @@ def from_config_probe() -> dict:
     return out
 
 
+# The rig's OWN account of what was put on the air, per airspace and per PHYSICAL channel (hz): bytes handed to `AirSpace.transmit`
+# since the last `reset_bandwidth_load` (maintained by the recorder's wrappers; never read from the implementation's dict).
+_OWN_AIR: Dict[int, Dict[int, int]] = {}
+# What the rig could not read of the implementation's bookkeeping (a container keyed / shaped differently from what the model and
+# the rig assume): a broken correspondence obligation, never an internal error.  Reset by `run_impl`.
+READ_PROBLEMS: List[str] = []
+
+
+def own_air_bytes(airspace, hz: int) -> int:
+    return _OWN_AIR.get(id(airspace), {}).get(int(hz), 0)
+
+
+def _read_problem(msg: str):
+    if msg not in READ_PROBLEMS and len(READ_PROBLEMS) < 20:
+        READ_PROBLEMS.append(msg)
+
+
+def air_counter_of(airspace, hz: int):
+    """The implementation's own counter for the physical channel `hz` (Mbit), or None when `bandwidth_load` is not a mapping from
+    a frequency in hertz to a number (then the problem is noted)."""
+    try:
+        items = list(airspace.bandwidth_load.items())
+        hit = None
+        for k, v in items:   # keys are whatever `frequency_hz` is (2.4e9 as float for the shipped names)
+            if isinstance(k, bool) or not isinstance(k, (int, float)) or isinstance(v, bool) or not isinstance(v, (int, float)):
+                _read_problem(f"AirSpace.bandwidth_load has an entry {k!r}: {v!r} that is not <frequency in hz>: <load>")
+                return None
+            if int(k) == hz:
+                hit = float(v)
+        return 0.0 if hit is None else hit
+    except Exception as e:
+        _read_problem(f"AirSpace.bandwidth_load cannot be read per hz: {type(e).__name__}: {e}")
+        return None
+
+
 def _air_load_of(airspace, hz: int) -> float:
-    for k, v in airspace.bandwidth_load.items():   # keys are whatever `frequency_hz` is (2.4e9 as float for the shipped names)
-        if int(k) == hz:
-            return v
-    return 0.0
+    """Load of the physical channel `hz`: the implementation's counter when it has one per hz; otherwise what the rig itself saw
+    go out on that hz since the last reset (so the run goes on, the model is asked the same questions, and the oracles decide)."""
+    v = air_counter_of(airspace, hz)
+    if v is None:
+        return own_air_bytes(airspace, hz) / UNIT
+    return v
 
 
 # ------------------------------------------------------------------------------------------------- recorder
@@ -503,6 +542,11 @@ class Recorder:
                         l = rec.w.links[where[0]]
                         other = l.endpoint_b if where[1] else l.endpoint_a
                         att["enR0"] = bool(other.enabled)
+                        try:    # power state of the two end nodes at the moment of the attempt (coverage of transitional states)
+                            att["nodeS"] = iface._connected_node.operating_state.name
+                            att["nodeR"] = other._connected_node.operating_state.name
+                        except Exception:
+                            pass
                         att["load0"] = rec._wired_load(where[0])
                     else:
                         att["load0"] = rec._air_load(where[0])
@@ -620,7 +664,7 @@ class Recorder:
                 exact = None
                 try:
                     hz = sender_network_interface.frequency.frequency_hz
-                    exact = (Fraction(air.bandwidth_load.get(hz, 0.0)) + Fraction(frame.size_Mbits)
+                    exact = (Fraction(_air_load_of(air, int(hz))) + Fraction(frame.size_Mbits)
                              <= Fraction(air.get_frequency_max_capacity_mbps(sender_network_interface.frequency.name)))
                 except Exception:
                     pass
@@ -637,6 +681,12 @@ class Recorder:
 
         def mk_atx(orig):
             def transmit(air, frame, sender_network_interface):
+                try:    # the rig's own account of the physical channel, before the implementation does anything
+                    own = _OWN_AIR.setdefault(id(air), {})
+                    hz0 = int(sender_network_interface.frequency.frequency_hz)
+                    own[hz0] = own.get(hz0, 0) + int(frame.size)
+                except Exception as e:
+                    _read_problem(f"AirSpace.transmit: the sender's frequency cannot be read: {type(e).__name__}: {e}")
                 att = rec.open[-1] if rec.open and rec.open[-1]["t"] == "W" else None
                 if att is not None:
                     att["tx"] = True
@@ -646,6 +696,25 @@ class Recorder:
                 return orig(air, frame, sender_network_interface)
             return transmit
         self._patch(AirSpace, "transmit", mk_atx)
+
+        def mk_areset(orig):
+            def reset_bandwidth_load(air, *a, **kw):
+                _OWN_AIR.pop(id(air), None)
+                return orig(air, *a, **kw)
+            return reset_bandwidth_load
+        self._patch(AirSpace, "reset_bandwidth_load", mk_areset)
+        # start the rig's own account from what the implementation's counters say now (zero after the rig's initial reset)
+        try:
+            air0 = rec.w.net.airspace
+            _OWN_AIR[id(air0)] = {}
+            for hz0, _ifs in rec.w.chans:
+                v0 = air_counter_of(air0, hz0)
+                if v0:
+                    _OWN_AIR[id(air0)][int(hz0)] = exact_bytes(v0)
+        except InexactLoad:
+            raise
+        except Exception as e:
+            _read_problem(f"initial airspace loads cannot be read: {type(e).__name__}: {e}")
 
         def mk_setcap(orig):
             def set_frequency_max_capacity_mbps(air, cfg):
@@ -714,8 +783,12 @@ class Recorder:
                 r = orig(net, timestep)
                 marker["foreign"] = reset_reach(rec.w)
                 marker["after"] = dump(rec.w)
-                marker["zero"] = (all(l.current_load == 0.0 for l in rec.w.links)
-                                  and all(v == 0.0 for v in net.airspace.bandwidth_load.values()))
+                try:
+                    air_zero = all(v == 0.0 for v in net.airspace.bandwidth_load.values())
+                except Exception as e:
+                    _read_problem(f"AirSpace.bandwidth_load values cannot be read: {type(e).__name__}: {e}")
+                    air_zero = True
+                marker["zero"] = all(l.current_load == 0.0 for l in rec.w.links) and air_zero
                 rec.stack[-1].append(marker)
                 return r
             return pre_timestep
@@ -858,6 +931,14 @@ def apply_op(w: World, op: list, t: List[int]):
         t[0] += 1
     elif kind == "step":
         w.env.step(op[1] % w.env.action_space.n)
+    elif kind == "gstep":
+        # the scripted-agents loop `PrimaiteGame.step()` (the proxy agent replays the action stored last)
+        try:
+            if w.env.agent.most_recent_action is None:
+                w.env.agent.store_action(0)     # a first step through the game loop: the proxy agent has nothing stored yet
+        except Exception:
+            pass
+        w.env.game.step()
     elif kind == "ping":
         w.nodes[op[1]].ping(w.ip[op[2]], pings=op[3] if len(op) > 3 else 1)
     elif kind == "arp":
@@ -871,6 +952,10 @@ def apply_op(w: World, op: list, t: List[int]):
     elif kind == "nic":
         iface = w.ifaces[op[1]]
         (iface.enable if op[2] == "enable" else iface.disable)()
+    elif kind == "nicreq":
+        # the same through the request interface of the node (what an agent's action does): ["network_interface", n, "enable"|"disable"]
+        host_name, num = op[1].split(":")
+        w.nodes[host_name].apply_request(["network_interface", int(num), op[2]])
     elif kind == "trip":
         # payload to the tripwire service on the target host: it toggles an interface during the delivery
         w.nodes[op[1]].software_manager.send_payload_to_session_manager(
@@ -1129,11 +1214,22 @@ def run_impl(case: dict, inventory=None) -> dict:
     same format, the raw forests, and what the implementation-side oracle saw."""
     import logging
     _FTP_N[0] = 0
+    del READ_PROBLEMS[:]
     w = build_scenario(case["scenario"]) if "scenario" in case else build(case["topo"])
-    w.net.pre_timestep(0)  # construction / reset sends traffic of its own; start from a tick boundary
+    info: Dict[str, int] = {}
     lines: List[str] = []
-    for l in w.links:
-        lines.append(f"link {floor_bytes(l.bandwidth)} {int(bool(l.endpoint_a.enabled))} {int(bool(l.endpoint_b.enabled))}")
+    if "scenario" in case:
+        # a whole environment: what `reset()` / construction sent stays on the links — the first step must clear it itself (the
+        # model starts from that state: the theorems hold from any start state); the airspace (no shipped scenario has one) is cleared
+        w.net.airspace.reset_bandwidth_load()
+        left = [exact_bytes(l.current_load) for l in w.links]
+        info["scenario:links-with-a-load-left-by-construction"] = sum(1 for v in left if v)
+        for l, v in zip(w.links, left):
+            lines.append(f"link {floor_bytes(l.bandwidth)} {int(bool(l.endpoint_a.enabled))} {int(bool(l.endpoint_b.enabled))} {v}")
+    else:
+        w.net.pre_timestep(0)  # construction sends traffic of its own; start from a tick boundary
+        for l in w.links:
+            lines.append(f"link {floor_bytes(l.bandwidth)} {int(bool(l.endpoint_a.enabled))} {int(bool(l.endpoint_b.enabled))}")
     for c, (hz, ifs) in enumerate(w.chans):
         lines.append(f"chan {','.join(str(w.icap(i)) for i in ifs)} en {w.en_bits(c)} mem {w.mem_bits(c)}")
     impl = ["ok"] * len(lines)
@@ -1153,7 +1249,6 @@ def run_impl(case: dict, inventory=None) -> dict:
     t = [1]
 
     forest_ops: List[int] = []
-    info: Dict[str, int] = {}
     far_seen = set()
 
     def bump(k, n=1):
@@ -1247,12 +1342,61 @@ def run_impl(case: dict, inventory=None) -> dict:
                 oracle.append({"kind": "load-exceeds-bandwidth", "op": oi, "medium": "wired", "k": k, "load": exact_bytes(l.current_load),
                                "cap": lpeak[k], "at": at})
         for c, (hz, ifs) in enumerate(w.chans):
+            cnt = air_counter_of(w.net.airspace, hz)
+            if cnt is not None:
+                bump("airspace-counter-compared-with-the-rig's-own-sum-per-hz")
+                if exact_bytes(cnt) != own_air_bytes(w.net.airspace, hz):
+                    oracle.append({"kind": "airspace-counter-is-not-what-was-sent-on-the-hz", "op": oi, "medium": "wireless", "k": c,
+                                   "counter": exact_bytes(cnt), "sent": own_air_bytes(w.net.airspace, hz), "at": at})
             load = exact_bytes(_air_load_of(w.net.airspace, hz))
             if load > cpeak[c]:
                 oracle.append({"kind": "load-exceeds-bandwidth", "op": oi, "medium": "wireless", "k": hz, "at": at})
             elif oncaps(c) and load > min(oncaps(c)):
                 # not a violation (see C18_air_two_names_counterexample): the hz is above the capacity of its smaller name
                 bump("hz-load-above-the-smaller-of-two-name-capacities")
+
+    def step_checks(oi: int, forest: List[dict], err=None):
+        """The tick of the property is the STEP of the environment (`PrimaiteGymEnv.step` / `PrimaiteGame.step`): looked at as a
+        whole and WITHOUT relying on where the recorder saw `Network.pre_timestep` — (1) the first thing a step does to the network
+        is the reset, once: no frame is sent and no interface toggled before it, and it is not repeated in mid-step; (2) the first
+        send of the step on each link / channel finds load 0; (3) the bytes carried in the whole step (agents' actions and
+        `apply_timestep` together, summed by the rig from the transmissions) stay within the capacity."""
+        bump("steps-checked")
+        resets = [i for i, e in enumerate(forest) if e["t"] == "T"]
+        traffic_before = [e["t"] for e in forest[:resets[0]]] if resets else [e["t"] for e in forest]
+        if len(resets) != 1 or resets[0] != 0:
+            what = ("no-reset" if not resets else "reset-not-first" if resets[0] != 0 else "reset-repeated")
+            if err and not resets:
+                # the step raised before it got to a reset (e.g. the agents' actions ran first and one of them raised)
+                what = "no-reset-before-the-step-raised: " + str(err)[:80]
+            oracle.append({"kind": "step-does-not-start-with-the-tick-reset", "op": oi, "medium": "any", "what": what,
+                           "resets": len(resets), "events_before_the_reset": traffic_before[:6]})
+        first = {}
+        total = {}
+
+        def visit(fr):
+            for e in fr:
+                if e["t"] in ("S", "W"):
+                    key = ("wired" if e["t"] == "S" else "wireless", e["k"])
+                    if key not in first:
+                        first[key] = e.get("load0")
+                    if e["tx"] and (e["acc"] or e.get("aborted")) or (e["t"] == "W" and e["tx"]):
+                        total[key] = total.get(key, 0) + (e["sa"] or 0)
+                    visit(e["children"])
+                elif e.get("children"):
+                    visit(e["children"])
+        visit(forest)
+        for key, l0 in sorted(first.items()):
+            bump("steps:first-send-on-a-link-or-channel")
+            if l0:
+                oracle.append({"kind": "load-not-zero-at-start-of-step", "op": oi, "medium": key[0], "k": key[1], "load": l0})
+        for key, v in sorted(total.items()):
+            cap = lcap[key[1]] if key[0] == "wired" else max(oncaps(key[1]), default=0)
+            if v > cap:
+                oracle.append({"kind": "carried-in-a-step-exceeds-bandwidth", "op": oi, "medium": key[0], "k": key[1], "carried": v,
+                               "cap": cap})
+            if v:
+                bump("steps:links-or-channels-that-carried-data")
 
     prev_load = {}
 
@@ -1324,6 +1468,8 @@ def run_impl(case: dict, inventory=None) -> dict:
                 if rec.broken:
                     end_of_op_checks(oi, "after-exception")
                     break
+            if op[0] in ("step", "gstep"):
+                step_checks(oi, forest, err)
             seg: List[dict] = []
             for e in forest:
                 if e["t"] not in ("T", "B", "C"):
@@ -1370,7 +1516,7 @@ def run_impl(case: dict, inventory=None) -> dict:
                         cvals[c] |= set(oncaps(c))
                     lines.append("dump")
                     impl.append(e["after"])
-            if seg or op[0] not in ("tick", "step", "setbw", "setcap"):
+            if seg or op[0] not in ("tick", "step", "gstep", "setbw", "setcap"):
                 segment(oi, seg, dump(w, ccap))
             sync_caps()
             monotone(oi)
@@ -1385,7 +1531,7 @@ def run_impl(case: dict, inventory=None) -> dict:
         except Exception:
             pass
     return {"lines": lines, "impl": impl, "forests": forests, "forest_ops": forest_ops, "oracle": oracle, "info": info,
-            "wrapped": wrapped, "runtime_inventory": runtime_inv}
+            "wrapped": wrapped, "runtime_inventory": runtime_inv, "read_problems": list(READ_PROBLEMS)}
 
 
 # ------------------------------------------------------------------------------------------------- generation
@@ -1422,7 +1568,7 @@ def gen_case(rng: Rng, max_ops: int = 14) -> dict:
         topo["freqs"] = [("WIFI_5" if rng.chance(1, 5) else "WIFI_2_4") for _ in range(nl)]
         cap = gen_bw(rng, True) * rng.choice([1, 1, 2, 3])
         topo["cap"] = [["WIFI_2_4", cap], ["WIFI_5", gen_bw(rng, True)]]
-        if rng.chance(1, 3):
+        if rng.chance(1, 2):
             # two frequency names on one hz: some access points use the alternative name, which has its own capacity
             # (smaller, larger, or equal) while the load is shared
             for j in range(nl):
@@ -1551,6 +1697,39 @@ def gen_case(rng: Rng, max_ops: int = 14) -> dict:
             ops += trip_ops(rng, topo, hosts)
         else:
             ops.append(["ping", a, b, 1])
+    if kind != "wireless" and rng.chance(1, 6):
+        # family "power transitions": a host with boot / shutdown countdowns is powered off and on again; in EVERY tick of the
+        # countdowns traffic is sent to it and from it, its interface is asked to come up (method and request: refused while the
+        # node is not ON), and once it is back an interface is disabled by request in the same tick as the traffic that follows
+        a = rng.choice(hosts)
+        b = rng.choice([h for h in hosts if h != a])
+        topo["dur"] = {a: [rng.range(0, 3), rng.range(0, 3)]}
+        fam: List[list] = [["tick"], ["ping", a, b, 1], ["power", a, "off"], ["ping", b, a, 1]]
+        for _ in range(topo["dur"][a][1] + 1):
+            fam += [["tick"], ["ping", b, a, 1], rng.choice([["nic", f"{a}:1", "enable"], ["nicreq", f"{a}:1", "enable"]]),
+                    ["ping", a, b, 1], ["burst", b, a, rng.choice([0, 100]), 1], ["burst", a, b, 0, 1]]
+        fam += [["power", a, "on"], ["ping", b, a, 1]]
+        for _ in range(topo["dur"][a][0] + 1):
+            fam += [["tick"], ["ping", a, b, 1], ["nicreq", f"{a}:1", "enable"], ["ping", b, a, 1], ["burst", a, b, 0, 1]]
+        fam += [["tick"], ["ping", a, b, 1], ["nicreq", f"{rng.choice([a, b])}:1", "disable"], ["ping", a, b, 1], ["ping", b, a, 1]]
+        at = rng.below(len(ops) + 1)
+        ops[at:at] = fam
+        topo["power_family"] = True
+    if kind == "wireless" and ALT_NAME in topo["freqs"] and "WIFI_2_4" in topo["freqs"] and rng.chance(3, 4):
+        # family "aliased channel": ONE physical channel (hz) used under two frequency names by different access points; in one tick
+        # first the access points of one name, then those of the other, each burst well within the capacity of its own name and
+        # together beyond it (a budget kept per name instead of per hz lets the hz carry a multiple of its capacity)
+        caps = dict(topo["cap"])
+        per = max(1, int(min(caps["WIFI_2_4"], caps[ALT_NAME]) * UNIT))
+        length = rng.choice([0, 100, 300])
+        count = max(1, min(8, (per * rng.choice([6, 8, 9]) // 10) // (700 + length)))
+        first = rng.choice(["WIFI_2_4", ALT_NAME])
+        order = ([j for j, f in enumerate(topo["freqs"]) if f == first]
+                 + [j for j, f in enumerate(topo["freqs"]) if f not in (first, "WIFI_5")])
+        fam = [["tick"]] + [["wburst", "wr%d" % j, length, count] for j in order]
+        at = rng.below(len(ops) + 1)
+        ops[at:at] = fam
+        topo["aliased_channel_family"] = True
     return {"topo": topo, "ops": ops}
 
 
@@ -1575,7 +1754,8 @@ def gen_scenario_case(rng: Rng, max_steps: int = 30) -> dict:
     nbw = rng.range(1, 4)
     bw = [rng.choice([100.0, 100.0, 10.0, 1.0, 0.05, 0.01, gen_bw(rng, True), 40.0]) for _ in range(nbw)]
     return {"scenario": {"file": rng.choice(SCENARIOS), "seed": rng.range(1, 10 ** 6), "bw": bw},
-            "ops": [["step", rng.below(10 ** 6) if rng.chance(2, 3) else 0] for _ in range(rng.range(8, max_steps))]}
+            "ops": [(["gstep"] if rng.chance(1, 4) else ["step", rng.below(10 ** 6) if rng.chance(2, 3) else 0])
+                    for _ in range(rng.range(8, max_steps))]}
 
 
 def f9_probe() -> dict:
